@@ -31,7 +31,7 @@ MONITORS = ("immut",)
 
 _B = {"bundle": None, "ctx": None}
 HIST_KINDS = ("tensor-copy", "mps-copy", "peps-copy", "probe-product_peps", "probe-generator", "probe-from_dict",
-              "env-copy", "mps-algos", "tensor-linalg")
+              "env-copy", "mps-algos", "tensor-linalg", "peps-sample")
 
 
 def _report(key, what, witness=None):
@@ -51,7 +51,7 @@ def layout(tier):
         seg += [("suite", len(W.test_files())), ("prog", 4000), ("hist", 900)]
         per = 200
     else:
-        seg += [("prog", 300), ("hist", 90)]
+        seg += [("prog", 300), ("hist", 120)]
         per = 25
     for name in W.foreign_modules():
         if tier != "thorough" and name not in W.TENSOR_LEVEL:
@@ -104,13 +104,16 @@ def hist_tensor_copy(ctx, rng, nprng):
     b = getattr(a, how)()
     sb = IM.snapshot(b)
     # documented in-place edits of the source
-    key = a.struct.t[0] if tuple(a.trans) == tuple(range(a.ndim_n)) else None
-    if key is not None:
-        a[key] = a[key] * 0 + 7.0
-    a.set_block(ts=a.struct.t[0], Ds=a.struct.D[0], val="ones")
+    def logical_block(t, i):
+        c = t.consume_transpose()          # block keys and shapes in the logical order of legs
+        return c.struct.t[i], c.struct.D[i]
+    key, shp = logical_block(a, 0)
+    a[key] = a[key] * 0 + 7.0
+    a.set_block(ts=key, Ds=shp, val="ones")
     _same(ctx, f"copy-not-independent:Tensor.{how}", f"Tensor.{how}() changed after in-place edit of its source", sb, b)
     sa = IM.snapshot(a)
-    b.set_block(ts=b.struct.t[-1], Ds=b.struct.D[-1], val="zeros")
+    key, shp = logical_block(b, -1)
+    b.set_block(ts=key, Ds=shp, val="zeros")
     b._data[...] = 3.0 if b.size else 0   # raw storage write on the copy must not reach the source either
     _same(ctx, f"copy-not-independent:Tensor.{how}:reverse", f"source changed after in-place edit of its Tensor.{how}()", sa, a)
     ctx.count("copy_histories")
@@ -414,7 +417,49 @@ def hist_tensor_linalg(ctx, rng, nprng):
     return ("tensor-linalg", sym, which, h.sig())
 
 
-HIST = {"tensor-copy": hist_tensor_copy, "mps-copy": hist_mps_copy, "peps-copy": hist_peps_copy, "env-copy": hist_env_copy,
+def hist_peps_sample(ctx, rng, nprng):
+    """env.sample with projectors given per site as nested containers of vectors: the caller's containers must survive."""
+    import yastn
+    import yastn.tn.fpeps as fpeps
+    ops = yastn.operators.SpinlessFermions(sym=rng.choice(("U1", "Z2")))
+    geo = fpeps.SquareLattice(dims=rng.choice(((2, 2), (1, 3), (2, 3))), boundary="obc")
+    ops.config.backend.random_seed(rng.randrange(2 ** 31))
+    vecs = {s: ops.vec_n(val=rng.randint(0, 1)) for s in geo.sites()}
+    psi = fpeps.product_peps(geo, vecs)
+    for b in list(geo.bonds())[:2]:
+        psi.apply_gate_(fpeps.gates.gate_nn_hopping(1.0, 0.3, ops.I(), ops.c(), ops.cp(), bond=b))
+    kind = rng.choice(("EnvBoundaryMPS", "EnvCTM", "EnvBP"))
+    if kind == "EnvBoundaryMPS":
+        env = fpeps.EnvBoundaryMPS(psi, opts_svd={"D_total": 8}, setup="lr")
+    elif kind == "EnvCTM":
+        env = fpeps.EnvCTM(psi, init="dl")
+        env.expand_outward_()
+    else:
+        env = fpeps.EnvBP(psi)
+        env.iterate_(max_sweeps=3)
+    form = rng.choice(("site-dict-of-dicts", "site-dict-of-lists", "lattice-of-dicts", "common-dict", "common-list"))
+    v0, v1 = ops.vec_n(val=0), ops.vec_n(val=1)
+    if form == "site-dict-of-dicts":
+        proj = {s: {0: v0, 1: v1} for s in geo.sites()}
+    elif form == "site-dict-of-lists":
+        proj = {s: [v0, v1] for s in geo.sites()}
+    elif form == "lattice-of-dicts":
+        proj = fpeps.Lattice(geo, objects={s: {"e": v0, "o": v1} for s in geo.sites()})
+    elif form == "common-dict":
+        proj = {0: v0, 1: v1}
+    else:
+        proj = [v0, v1]
+    try:
+        env.sample(proj, number=2)
+    except Exception as e:
+        if type(e).__name__ != "YastnError":
+            raise
+        ctx.count("sample_rejected")
+    ctx.count("peps_sample_histories")
+    return ("peps-sample", kind, form, tuple(geo.dims))
+
+
+HIST = {"peps-sample": hist_peps_sample, "tensor-copy": hist_tensor_copy, "mps-copy": hist_mps_copy, "peps-copy": hist_peps_copy, "env-copy": hist_env_copy,
         "probe-product_peps": probe_product_peps, "probe-generator": probe_generator, "probe-from_dict": probe_from_dict,
         "mps-algos": hist_mps_algos, "tensor-linalg": hist_tensor_linalg}
 
